@@ -862,7 +862,153 @@ async fn run(_tier: Tier) {
         2 | 3 => lib_sequence(&w),
         4 | 5 => model_sequence(&w),
         6 => middleware_sequence(&w).await,
+        _ if sim::chance("mode.client_transport_multi", 1, 2) => client_transport_multi(&w).await,
         _ => client_transport(&w).await,
+    }
+}
+
+// ---------------------------------- the client transport, many responses
+
+/// What the scripted upstream hands out next.
+#[derive(Clone)]
+enum Scripted {
+    Msg(Vec<u8>),
+    /// The transport below fails this call (a read timeout, say); the
+    /// messages behind it are still there for whoever asks again.
+    UpstreamError,
+}
+
+struct ScriptedMultiUpstream {
+    key: std::sync::Arc<Key>,
+    /// (number of responses, fail the call before response k, tamper with response t)
+    plan: (usize, Option<usize>, Option<usize>),
+    /// The genuine responses before signing (filled in when the request is served).
+    bodies: std::sync::Arc<std::sync::Mutex<Vec<Vec<u8>>>>,
+}
+
+struct ScriptedMultiGet {
+    script: std::collections::VecDeque<Scripted>,
+}
+
+impl std::fmt::Debug for ScriptedMultiGet {
+    fn fmt(&self, f: &mut std::fmt::Formatter<'_>) -> std::fmt::Result {
+        write!(f, "ScriptedMultiGet")
+    }
+}
+
+impl<CR: domain::net::client::request::ComposeRequestMulti + Send + Sync + 'static> domain::net::client::request::SendRequestMulti<CR> for ScriptedMultiUpstream {
+    fn send_request(&self, req: CR) -> Box<dyn domain::net::client::request::GetResponseMulti + Send + Sync> {
+        let mut script = std::collections::VecDeque::new();
+        let mut msg = req.to_message().expect("request composes");
+        let now = t48(sim::wall_secs());
+        let (n, fail_before, tamper) = self.plan;
+        match ServerSequence::request(&self.key, &mut msg, now) {
+            Ok(Some(mut sseq)) => {
+                for i in 0..n {
+                    if fail_before == Some(i) {
+                        script.push_back(Scripted::UpstreamError);
+                    }
+                    let mut ab = MessageBuilder::new_vec().start_answer(&msg, domain::base::iana::Rcode::NOERROR).expect("start_answer");
+                    let text = format!("part{}", i).into_bytes();
+                    ab.push((Name::<Vec<u8>>::from_str("multi.example.").unwrap(), Class::IN, Ttl::from_secs(60), Txt::<Vec<u8>>::build_from_slice(&text).unwrap())).unwrap();
+                    let mut ad = ab.additional();
+                    self.bodies.lock().unwrap().push(ad.as_slice().to_vec());
+                    sseq.answer(&mut ad, now).expect("sign");
+                    let mut bytes = ad.finish();
+                    if tamper == Some(i) {
+                        // One bit of the record data (well inside the signed part).
+                        let p = bytes.len().min(12 + 20 + 30);
+                        bytes[p - 1] ^= 0x01;
+                    }
+                    script.push_back(Scripted::Msg(bytes));
+                }
+            }
+            other => {
+                sim::violation(P, "completeness", "client-transport-request-rejected".to_string(), format!("the honest server could not verify the transport's streaming request: {:?}", other.map(|o| o.is_some()).map_err(|e| format!("{:?}", e.error()))));
+            }
+        }
+        Box::new(ScriptedMultiGet { script })
+    }
+}
+
+impl domain::net::client::request::GetResponseMulti for ScriptedMultiGet {
+    fn get_response(&mut self) -> Pin<Box<dyn Future<Output = Result<Option<Message<bytes::Bytes>>, domain::net::client::request::Error>> + Send + Sync + '_>> {
+        let next = self.script.pop_front();
+        Box::pin(std::future::ready(match next {
+            None => Ok(None),
+            Some(Scripted::UpstreamError) => Err(domain::net::client::request::Error::StreamReadTimeout),
+            Some(Scripted::Msg(b)) => Ok(Some(Message::from_octets(bytes::Bytes::from(b)).expect("message"))),
+        }))
+    }
+}
+
+/// `net::client::tsig::Connection` with a request that has many responses
+/// (a zone transfer) over a scripted upstream: every response signed by the
+/// library's `ServerSequence`; one call of the transport below may fail (the
+/// messages behind it are still there for a caller who asks again); one
+/// response may have a bit flipped. Whatever is handed to the caller is one
+/// of the genuine responses, in order, verified and with its TSIG record
+/// gone; the tampered one never is; a clean end means all of them came out.
+async fn client_transport_multi(w: &World) {
+    use domain::net::client::request::{RequestMessageMulti, SendRequestMulti};
+    sim::stat("probe.client_transport_multi_mode");
+    let key = std::sync::Arc::new(w.lib_key.clone());
+    let n = 1 + sim::draw("ctm.n", 6) as usize;
+    let fail_before = if sim::chance("ctm.upstream_error", 1, 2) { Some(sim::draw("ctm.fail_before", n as u64) as usize) } else { None };
+    let tamper = if sim::chance("ctm.tamper", 1, 2) { Some(sim::draw("ctm.tamper_at", n as u64) as usize) } else { None };
+    if fail_before.is_some() {
+        sim::stat("fault.upstream_call_failed_mid_sequence");
+    }
+    if tamper.is_some() {
+        sim::stat("fault.bit_flip");
+    }
+    let bodies = std::sync::Arc::new(std::sync::Mutex::new(Vec::new()));
+    let conn = domain::net::client::tsig::Connection::new(key.clone(), ScriptedMultiUpstream { key, plan: (n, fail_before, tamper), bodies: bodies.clone() });
+    let mut mb = MessageBuilder::new_vec();
+    mb.header_mut().set_id(77);
+    let mut q = mb.question();
+    q.push((Name::<Vec<u8>>::from_str("multi.example.").unwrap(), Rtype::AXFR)).unwrap();
+    let req = RequestMessageMulti::new(q.into_message()).expect("request");
+    let mut g = SendRequestMulti::send_request(&conn, req);
+    ev!("client transport, {} responses, upstream call fails before response {:?}, response {:?} tampered with", n, fail_before, tamper);
+    let mut got = 0usize;
+    let mut errors = 0u32;
+    loop {
+        match g.get_response().await {
+            Ok(Some(m)) => {
+                let bodies = bodies.lock().unwrap();
+                if tamper == Some(got) {
+                    sim::violation(P, "soundness", "client-transport-handed-on-a-tampered-response".to_string(), format!("response {} of {} had a bit flipped in transit and was handed to the caller (an upstream call had failed before: {})", got + 1, n, errors > 0));
+                    return;
+                }
+                if m.header_counts().arcount() != 0 {
+                    sim::violation(P, "restore", "client-transport-left-the-tsig-record".to_string(), format!("response {} of {} was handed to the caller with its TSIG record still attached - it was not verified (an upstream call had failed before: {})", got + 1, n, errors > 0));
+                    return;
+                }
+                let same = bodies.get(got).is_some_and(|b| crate::dns::view(b).map(|v| (v.id, v.recs)) == crate::dns::view(m.as_slice()).map(|v| (v.id, v.recs)));
+                if !same {
+                    sim::violation(P, "restore", "client-transport-response-differs".to_string(), format!("response {} of {} handed to the caller is not the message the server signed at that position", got + 1, n));
+                    return;
+                }
+                got += 1;
+            }
+            Ok(None) => {
+                if got != n {
+                    sim::violation(P, "soundness", "client-transport-clean-end-with-responses-missing".to_string(), format!("the sequence ended cleanly after {} of {} responses", got, n));
+                }
+                return;
+            }
+            Err(e) => {
+                errors += 1;
+                let auth = format!("{:?}", e).contains("Authentication");
+                ev!("client transport: call {} -> {:?}", got + errors as usize, e);
+                // After a rejected message nothing more is demanded; after a
+                // failed call of the transport below the caller asks again.
+                if auth || errors > 3 {
+                    return;
+                }
+            }
+        }
     }
 }
 
